@@ -423,7 +423,7 @@ pub fn verify_dir(case: &DirCase, inst: &Installed, pack: &Arc<jbk::reader::Dire
             }
             for (name, v) in &em.vals {
                 let expected = match v {
-                    Val::Ref(t) => Val::U(inverse[ix.store][*t] as u64),
+                    Val::Ref(t) => resolved_ref(st, name, inverse[ix.store][*t]),
                     other => other.clone(),
                 };
                 match re.vals.get(name) {
